@@ -24,5 +24,12 @@ Proof. repeat split; vm_compute; reflexivity. Qed.
 (* a curve that is NOT Robust (two levels 1e-7 apart): the predicate rejects it *)
 Lemma not_robust_example : robust_b tol [30; 20; 10] [5; (50000001 # 10000000); 0] = false.
 Proof. vm_compute. reflexivity. Qed.
+(* D56 (repaired by 90f934d): below the pinch a pocket closes within tol of an existing row, so no breakpoint is inserted;
+   the exit row (T = 174.9995, H = 39.999) must be flattened to the pocket level 20 all the same.  The input is NOT Robust. *)
+Definition d56_T : list Q := [285; 275; 175; (17499975 # 100000); (1749995 # 10000); 165; 130; 105].
+Definition d56_H : list Q := [200; 200; 0; (199995 # 10000); (39999 # 1000); 20; 20; (105 # 4)].
+Lemma d56_model : robust_b tol d56_T d56_H = false /\
+  match gcc_np tol d56_T d56_H with Ok m => map rNP m | Err _ => [] end = [200; 200; 0; (199995 # 10000); 20; 20; 20; (105 # 4)].
+Proof. split; vm_compute; reflexivity. Qed.
 Lemma examples_predicate : model_ok d2_T d2_H = true /\ model_ok ex2_T ex2_H = true.
 Proof. split; [exact d2_predicate|exact (proj2 (proj2 ex2_robust))]. Qed.
